@@ -4,6 +4,7 @@ import (
 	"encoding/json"
 	"fmt"
 	"math"
+	"reflect"
 	"sort"
 	"strconv"
 	"strings"
@@ -544,11 +545,70 @@ func MatchJSONValue(got any, v any) error {
 		// a structured rendering (object/array) is acceptable too
 		return nil
 	}
-	want := fmt.Sprint(v)
-	if utf8.ValidString(want) && !strings.Contains(s, want) {
-		return fmt.Errorf("fallback: got %q, which does not contain %q", s, want)
+	if leaf, ok := missingLeaf(s, v); ok {
+		return fmt.Errorf("fallback: got %q, which does not mention %q (a part of the value %v)", s, leaf, Short(v))
 	}
 	return nil
+}
+
+// missingLeaf: how a value of a kind without an encoder of its own is spelled is not stated (%v, %+v, a structured form ...);
+// what every faithful spelling has in common is that the scalar parts of the value are in it. It reports a scalar part
+// (fmt.Sprint of a number, bool or valid-UTF-8 string inside structs, maps, slices, arrays, pointers) that text does not
+// contain. Values that print themselves (marshallers, LogValuers) are not looked into.
+func missingLeaf(text string, v any) (string, bool) {
+	switch v.(type) {
+	case Valuer, DocUser, error, fmt.Stringer:
+		return "", false
+	}
+	var leaves []string
+	var walk func(rv reflect.Value, depth int)
+	walk = func(rv reflect.Value, depth int) {
+		if depth > 6 || !rv.IsValid() {
+			return
+		}
+		switch rv.Kind() {
+		case reflect.Ptr, reflect.Interface:
+			if !rv.IsNil() {
+				walk(rv.Elem(), depth+1)
+			}
+		case reflect.Struct:
+			for i := 0; i < rv.NumField(); i++ {
+				walk(rv.Field(i), depth+1)
+			}
+		case reflect.Map:
+			for _, k := range rv.MapKeys() {
+				walk(k, depth+1)
+				walk(rv.MapIndex(k), depth+1)
+			}
+		case reflect.Slice, reflect.Array:
+			for i := 0; i < rv.Len(); i++ {
+				walk(rv.Index(i), depth+1)
+			}
+		case reflect.String:
+			if s := rv.String(); utf8.ValidString(s) {
+				leaves = append(leaves, s)
+			}
+		case reflect.Int, reflect.Int8, reflect.Int16, reflect.Int32, reflect.Int64:
+			leaves = append(leaves, strconv.FormatInt(rv.Int(), 10))
+		case reflect.Bool:
+			leaves = append(leaves, strconv.FormatBool(rv.Bool()))
+		}
+	}
+	if _, isErrs := v.([]error); isErrs {
+		for _, e := range v.([]error) {
+			if e != nil && utf8.ValidString(e.Error()) {
+				leaves = append(leaves, e.Error())
+			}
+		}
+	} else {
+		walk(reflect.ValueOf(v), 0)
+	}
+	for _, l := range leaves {
+		if !strings.Contains(text, l) {
+			return l, true
+		}
+	}
+	return "", false
 }
 
 func matchNumericJSON(got any, v any) (error, bool) {
@@ -704,8 +764,8 @@ func MatchLogfmtValue(p LPair, v any, requireQuote bool) error {
 	if err := needQuoted(); err != nil {
 		return err
 	}
-	if want := fmt.Sprint(v); !strings.Contains(p.Str, want) {
-		return fmt.Errorf("fallback: got %q, which does not contain %q", p.Str, want)
+	if leaf, ok := missingLeaf(p.Str, v); ok {
+		return fmt.Errorf("fallback: got %q, which does not mention %q (a part of the value %v)", p.Str, leaf, Short(v))
 	}
 	return nil
 }
